@@ -56,10 +56,22 @@ func NewBuilder(r *core.Rng, o HOpts) *Builder {
 	b := &Builder{R: r, O: o, ts: 1500000000 + uint32(r.Intn(100000000)), nextID: r.U64() | 1<<40}
 	b.H = &hist.History{FirstFile: fmt.Sprintf("mysql-bin.%06d", 1+r.Intn(999)), Cfgs: o.Cfgs, Bases: o.Bases, FDETS: b.ts}
 	copy(b.sid[:], r.Bytes(16))
+	switch r.Intn(16) {
+	case 0:
+		b.sid = [16]byte{} // the all-zero server uuid
+	case 1:
+		for i := range b.sid {
+			b.sid[i] = 0xff
+		}
+	}
 	b.gno = int64(1 + r.Intn(1000))
 	nt := 1 + r.Intn(maxi(1, o.MaxTables))
 	for i := 0; i < nt; i++ {
 		b.Tables = append(b.Tables, b.RandTable(uint64(100+i*7+r.Intn(5)), fmt.Sprintf("db%d", r.Intn(3)), fmt.Sprintf("t%d", i), 1+r.Intn(maxi(1, o.MaxCols))))
+	}
+	if r.Chance(1, 8) {
+		// an ordinary value of the id counter that looks like a marker
+		b.Tables[r.Intn(len(b.Tables))].ID = []uint64{0xffffff, 0xfffffe, 0x1000000, 0}[r.Intn(4)]
 	}
 	return b
 }
@@ -72,7 +84,16 @@ func maxi(a, b int) int {
 }
 
 // TS returns a fresh, strictly increasing event timestamp.
-func (b *Builder) TS() uint32 { b.ts += uint32(1 + b.R.Intn(3)); return b.ts }
+func (b *Builder) TS() uint32 {
+	b.ts += uint32(1 + b.R.Intn(3))
+	if b.R.Chance(1, 8) {
+		// the first bytes of an event are its timestamp: values whose low bytes
+		// look like protocol markers (0xfe EOF, 0xff ERR, 0xef semi-sync, 0x00 OK)
+		special := []uint32{0x00ef, 0x01ef, 0x00fe, 0x01fe, 0x00ff, 0xfefe, 0xffff, 0x0000, 0xfffe}
+		b.ts = (b.ts&^0xffff + 0x10000) | special[b.R.Intn(len(special))]
+	}
+	return b.ts
+}
 
 // ID returns a fresh change id.
 func (b *Builder) ID() uint64 { b.nextID += uint64(1 + b.R.Intn(1000)); return b.nextID }
@@ -466,6 +487,13 @@ func RandomHistory(r *core.Rng, o HOpts, ntx int, rotations int) (*hist.History,
 			b.AddSwitch()
 			if o.GTID {
 				b.Add(hist.PrevGTIDs)
+			}
+			if r.Chance(1, 4) {
+				// a file that holds nothing but its header (FLUSH LOGS twice)
+				b.AddSwitch()
+				if o.GTID {
+					b.Add(hist.PrevGTIDs)
+				}
 			}
 		}
 		if r.Chance(1, 5) {
